@@ -52,7 +52,7 @@ CONSTANTS Senders, Nonces, Prices, Sizes,   \* transaction universe [s, n, p, z]
           KnownDefects,   \* deviations active in model checking / behaviour generation
           Log(_, _)
 
-VARIABLES cfg,        \* [ev, nb, cnt, sb, sc, ne]: EvictionEnabled, NumBytesThreshold, CountThreshold,
+VARIABLES cfg,        \* [ev, nb, cnt, sb, sc, ne, glo, ghi]: EvictionEnabled, NumBytesThreshold, CountThreshold,
                       \*   NumBytesPerSenderThreshold, CountPerSenderThreshold, NumSendersToPreemptivelyEvict
           alive,      \* NewTxCache accepted the configuration
           byHash,     \* set of transactions found by hash
@@ -67,8 +67,10 @@ vars  == <<cfg, alive, byHash, cnt, nbytes, nsend, lists, sweepL, skew, staleSwe
 cvars == <<cfg, alive, byHash, cnt, nbytes, nsend, lists, sweepL, skew, staleSwept>>
 
 AllDefects == {"C25evict1", "C26nonce0", "ClearBytes"}
-GraceLo == 2    \* senderGracePeriodLowerBound
-GraceHi == 2    \* senderGracePeriodUpperBound
+\* senderGracePeriodLowerBound / UpperBound are part of the configuration record (cfg.glo, cfg.ghi; 2 and 2 in the
+\* code; the harness reads them from the code), so a different grace period is not mistaken for a defect
+GraceLo == cfg.glo
+GraceHi == cfg.ghi
 
 Min(a, b) == IF a < b THEN a ELSE b
 Tx(s, n, p, z) == [s |-> s, n |-> n, p |-> p, z |-> z]
@@ -204,6 +206,15 @@ OrderOK(ls) ==
 SenderLimitsOK(c, ls, rec) ==
     (rec.a = "AddTx" /\ rec.in.tx.s \in DOMAIN ls) =>
         LET q == ls[rec.in.tx.s].txs IN Len(q) <= c.sc /\ SumZ(q) <= c.sb
+
+\* the shape of the named deviation C25evict1: the sender's list after the addition is the list with the
+\* transaction inserted minus exactly its last element (ls: lists before the call, ls2: after)
+OneEvictionShape(ls, ls2, rec) ==
+    LET tx  == rec.in.tx
+        pre == IF tx.s \in DOMAIN ls THEN ls[tx.s].txs ELSE <<>>
+    IN  /\ tx \notin TxSet(pre) /\ tx.s \in DOMAIN ls2
+        \* inserted at SOME place (the property leaves ties open), then the last element dropped
+        /\ \E j \in 0..Len(pre) : ls2[tx.s].txs = SubSeq(InsertAfter(pre, j, tx), 1, Len(pre))
 
 \* C26 on a Select record; ls = lists after the selection (selection does not change the txs)
 Of(res, s) == SelectSeq(res, LAMBDA t : t.s = s)
@@ -387,7 +398,13 @@ Inv_C26_GapSender == IsSel => SelGapSender(lists, LastRec)
 \* VIEW cvars (hist is not part of it), and TLC evaluates state invariants only on states it has not seen, but
 \* action properties on every transition.
 SelStep(P) == (LastRec'.a = "Select") => P
-Act_C25_SenderLimits == [][SenderLimitsOK(cfg, lists', LastRec')]_vars
+\* "after each addition the sender's count and byte limits hold", split into the class of the named deviation
+\* C25evict1 (exactly one transaction was evicted from the back and the limits are still exceeded) and every other way
+\* of exceeding the limits, so that the two get different signatures
+\* (a rejected duplicate is not an addition)
+LimitsBroken == LastRec'.a = "AddTx" /\ LastRec'.out.added /\ ~SenderLimitsOK(cfg, lists', LastRec')
+Act_C25_SenderLimits_OneEvictionPerAdd == [][~(LimitsBroken /\ OneEvictionShape(lists, lists', LastRec'))]_vars
+Act_C25_SenderLimits == [][~(LimitsBroken /\ ~OneEvictionShape(lists, lists', LastRec'))]_vars
 Act_C26_AtMostN == [][SelStep(SelAtMostN(LastRec'))]_vars
 Act_C26_DistinctPooled == [][SelStep(SelDistinctPooled(lists', LastRec'))]_vars
 Act_C26_Prefix == [][SelStep(SelPrefix(lists', LastRec'))]_vars
